@@ -74,6 +74,18 @@ def fixed_cases(tier):
             out.append({"src": "x = 1\ny = x\n", "how": how, "flags": ["--json"], "min_version": 7, "subprocess": False, "attached": False,
                         "e_style": style, "_label": "cli_fixed"})
     out.append({"src": "x = 1\n", "how": "file", "flags": ["--json"], "min_version": 7, "subprocess": True, "_label": "cli_fixed"})
+    # the shared example programs (the repository's own examples and the override-carrying shapes: redundant line
+    # entries, out-of-order tables, unused entries, wide operands): what --json prints must load back to the
+    # un-normalized / normalized API value for those too
+    seen = set(progs)
+    for c in gen_source.example_cases():
+        s = c.get("src")
+        if s is None or c.get("mode", "exec") != "exec" or c.get("optimize", 0) != 0 or s in seen or len(s) > 4000:
+            continue
+        seen.add(s)
+        for fl in (["--json", "--no-normalize"], ["--json"]):
+            out.append({"src": s, "how": "file", "flags": fl, "min_version": c.get("min_version", 7), "subprocess": False,
+                        "_label": "cli_examples"})
     out.append({"src": "x = 1\n", "how": "m", "flags": [], "min_version": 7, "subprocess": True, "_label": "cli_fixed"})
     for n in (0, 2, 3, 4):
         for combo in itertools.combinations(SOURCES, n):
